@@ -27,7 +27,7 @@ V = c07.V
 
 
 def run(ctx):
-    for fn in (r1_static_rows, r2_dynamic_rows):
+    for fn in (r1_static_rows, r2_dynamic_rows, r3_ownership_predicate):
         ctx.rep.rule(fn, ctx)
 
 
@@ -143,6 +143,52 @@ def r2_dynamic_rows(ctx):
                    "members are keyed 'Class.member' on both sides" if ok else 'dynamic member keys are not of the form Class.member', anchor=DYN)
 
 
+def r3_ownership_predicate(ctx):
+    """is_defined_by_module: for non-module items the verdict starts False and can only be raised to True by one of the
+    sufficient tests; the `__module__` test is consulted for every such item (functools.wraps copies `__module__`, so a
+    wrapped def of this module is owned dynamically exactly as the static side sees it)"""
+    rep = ctx.rep
+    q = 'xdoctest.dynamic_analysis.is_defined_by_module'
+    f = ctx.func(q)
+    g = ctx.cfg(f)
+    rd = ctx.rd(f)
+    dom = ctx.dom(g, g.entry)
+    rets = [n for n in g.nodes if n.kind == 'stmt' and isinstance(n.ast, ast.Return) and not n.dup]
+    need(len(rets) == 1 and isinstance(rets[0].ast.value, ast.Name), 'C16.R3: is_defined_by_module does not return one verdict variable')
+    flag = rets[0].ast.value.id
+
+    def module_branch(n):
+        """True/False if node n lies on the branch for module objects / other items"""
+        for fa in graph.guard_facts(dom, n):
+            e = fa.expr
+            if isinstance(e, ast.Call) and is_name(e.func, 'isinstance') and 'ModuleType' in ast.unparse(e.args[1]):
+                return fa.polarity
+        return None
+    n_true = 0
+    for d in rd.defs_of(flag):
+        if module_branch(d.node) is True:
+            continue
+        v = d.value
+        if isinstance(v, ast.Constant) and v.value is False and module_branch(d.node) is None:
+            continue        # initialiser
+        ok = isinstance(v, ast.Constant) and v.value is True
+        n_true += 1 if ok else 0
+        rep.ob('C16.R3', ctx.loc(f, d.node.ast), ctx.src(d.node.ast), ok,
+               'a sufficient test raises the verdict to True' if ok else
+               'the verdict of a non-module item is overwritten by a computed value: a positive `__module__` / `__objclass__` match no longer decides '
+               '(a def of this module wrapped by a functools.wraps decorator from another module is judged foreign)', anchor=q)
+    rep.floor('C16.R3', 'sufficient ownership tests', n_true, 2)
+    # the __module__ test is consulted for every non-module item
+    tests = [n for n in g.nodes if n.kind == 'test' and not n.dup and module_branch(n) is False and "'__module__'" in ast.unparse(n.ast) and 'target_modname' in ast.unparse(n.ast)
+             and not any(isinstance(x, ast.Name) and x.id == 'parent' for x in ast.walk(n.ast))]
+    need(tests, 'C16.R3: the `__module__ == target` test was not found')
+    for t in tests:
+        others = [fa for fa in graph.guard_facts(dom, t) if not (isinstance(fa.expr, ast.Call) and is_name(fa.expr.func, 'isinstance'))]
+        ok = not others
+        rep.ob('C16.R3', ctx.loc(f, t.ast), ctx.src(t.ast), ok,
+               'consulted for every non-module item' if ok else 'the `__module__` test is only consulted under %s' % fmt_facts(others), anchor=q)
+
+
 # ---------------------------------------------------------------------------
 from ..selftest import fire, silent      # noqa: E402
 
@@ -158,5 +204,7 @@ VARIANTS = [
          (DY, "                    yield key + '.' + subkey, item\n", "                    yield key + '.' + subkey, item\n                elif isinstance(subval, type):\n                    for k2, v2 in iter_module_doctestables(subval):\n                        yield key + '.' + subkey + '.' + k2, v2\n")),
     fire('static-skips-staticmethods', 'C16.R1',
          (SA, "                    if decor.id == 'property':\n", "                    if decor.id == 'staticmethod':\n                        return\n                    if decor.id == 'property':\n")),
+    fire('globals-preferred-over-module-attr', 'C16.R3',
+         (DY, "        if getattr(item, '__module__', None) == target_modname:\n            flag = True\n", "        item_globals = getattr(item, '__globals__', None)\n        if item_globals is not None:\n            flag = item_globals.get('__name__') == target_modname\n        elif getattr(item, '__module__', None) == target_modname:\n            flag = True\n")),
     silent('dynamic-table-reordered', (DY, "        classmethod,\n        staticmethod,\n", "        staticmethod,\n        classmethod,\n")),
 ]
